@@ -151,7 +151,8 @@ func (u *Universe) Package(pkgPath string) Package {
 }
 
 func (u *Universe) LocateInPackage(pos token.Pos) Package {
-	pp := u.fset.Position(pos)
+	// the file the position is in, not the one a //line directive names
+	pp := u.fset.PositionFor(pos, false)
 	dir := filepath.Dir(pp.Filename)
 
 	for _, p := range u.pkgs {
